@@ -684,14 +684,22 @@ fn name(i: &str) -> IResult<&str, &str, Error> {
     reduce(take_while1(is_name_char), " ,:(\n;")(i)
 }
 
+/// `{true}`, `{false}`, `{null}` and `{hex:00}` are sets with one element, not parameters
+fn is_reserved_parameter_name(name: &str) -> bool {
+    name == "true" || name == "false" || name == "null" || name.starts_with("hex:")
+}
+
 fn parameter_name(i: &str) -> IResult<&str, &str, Error> {
     let is_name_char = |c: char| is_alphanumeric(c as u8) || c == '_' || c == ':';
 
     error(
-        recognize(preceded(
-            satisfy(|c: char| is_alphabetic(c as u8)),
-            take_while(is_name_char),
-        )),
+        nom::combinator::verify(
+            recognize(preceded(
+                satisfy(|c: char| is_alphabetic(c as u8)),
+                take_while(is_name_char),
+            )),
+            |name: &str| !is_reserved_parameter_name(name),
+        ),
         |_| {
             "invalid parameter name: it must start with an alphabetic character, followed by alphanumeric characters, underscores or colons".to_string()
         },
